@@ -189,26 +189,23 @@ pub mod shim_sysapi_c39 {
     /// a failure of the environment: neither of the two refusals the account blueprint is responsible for
     pub open spec fn env_error<E: SystemApiError>(e: E) -> bool { !e.is_account_error() && !e.is_assert_access_rule_failed() }
 
-    /// everything but the open locks
-    pub open spec fn same_world<Y: SystemApi<E>, E: SystemApiError>(a: &Y, b: &Y) -> bool {
-        &&& b.heap() == a.heap()
-        &&& b.auth() == a.auth()
-        &&& b.deposited() == a.deposited()
-        &&& b.events() == a.events()
+    /// everything but the open locks, as one ghost VALUE
+    pub ghost struct World {
+        pub heap: Heap,
+        pub auth: AuthEnv,
+        /// buckets put into vaults of this account, in order
+        pub deposited: Seq<Bucket>,
+        pub events: Seq<GhostEvent>,
     }
 
     pub trait SystemApi<E: SystemApiError>: Sized {
-        spec fn heap(&self) -> Heap;
+        spec fn world(&self) -> World;
         spec fn fhandles(&self) -> Map<FieldHandle, FieldIndex>;
         spec fn khandles(&self) -> Map<KeyValueEntryHandle, KvKey>;
-        spec fn auth(&self) -> AuthEnv;
-        /// buckets put into vaults of this account, in order
-        spec fn deposited(&self) -> Seq<Bucket>;
-        spec fn events(&self) -> Seq<GhostEvent>;
 
         fn actor_open_field(&mut self, object_handle: ActorStateHandle, field: FieldIndex, flags: LockFlags) -> (r: Result<FieldHandle, E>)
             ensures
-                same_world(old(self), final(self)),
+                final(self).world() == old(self).world(),
                 final(self).khandles() == old(self).khandles(),
                 r matches Ok(h) ==> !old(self).fhandles().contains_key(h)
                     && final(self).fhandles() == old(self).fhandles().insert(h, field),
@@ -218,26 +215,26 @@ pub mod shim_sysapi_c39 {
         fn field_read_typed<S: FieldPayload>(&mut self, handle: FieldHandle) -> (r: Result<S, E>)
             requires
                 old(self).fhandles().contains_key(handle),
-                old(self).heap().fields.contains_key(old(self).fhandles()[handle]),
-                S::accepts(old(self).heap().fields[old(self).fhandles()[handle]]),
+                old(self).world().heap.fields.contains_key(old(self).fhandles()[handle]),
+                S::accepts(old(self).world().heap.fields[old(self).fhandles()[handle]]),
             ensures
-                same_world(old(self), final(self)),
+                final(self).world() == old(self).world(),
                 final(self).fhandles() == old(self).fhandles(),
                 final(self).khandles() == old(self).khandles(),
-                r matches Ok(s) ==> s.ghost() == old(self).heap().fields[old(self).fhandles()[handle]],
+                r matches Ok(s) ==> s.ghost() == old(self).world().heap.fields[old(self).fhandles()[handle]],
                 r matches Err(e) ==> env_error(e);
 
         fn field_close(&mut self, handle: FieldHandle) -> (r: Result<(), E>)
             requires old(self).fhandles().contains_key(handle)
             ensures
-                same_world(old(self), final(self)),
+                final(self).world() == old(self).world(),
                 final(self).khandles() == old(self).khandles(),
                 r is Ok ==> final(self).fhandles() == old(self).fhandles().remove(handle),
                 r matches Err(e) ==> env_error(e);
 
         fn actor_open_key_value_entry(&mut self, object_handle: ActorStateHandle, collection_index: CollectionIndex, key: &Vec<u8>, flags: LockFlags) -> (r: Result<KeyValueEntryHandle, E>)
             ensures
-                same_world(old(self), final(self)),
+                final(self).world() == old(self).world(),
                 final(self).fhandles() == old(self).fhandles(),
                 r matches Ok(h) ==> !old(self).khandles().contains_key(h)
                     && final(self).khandles() == old(self).khandles().insert(h, (collection_index, key@)),
@@ -248,20 +245,20 @@ pub mod shim_sysapi_c39 {
         fn key_value_entry_get_typed<S: KvPayload>(&mut self, handle: KeyValueEntryHandle) -> (r: Result<Option<S>, E>)
             requires
                 old(self).khandles().contains_key(handle),
-                old(self).heap().kv.contains_key(old(self).khandles()[handle])
-                    ==> S::accepts(old(self).heap().kv[old(self).khandles()[handle]]),
+                old(self).world().heap.kv.contains_key(old(self).khandles()[handle])
+                    ==> S::accepts(old(self).world().heap.kv[old(self).khandles()[handle]]),
             ensures
-                same_world(old(self), final(self)),
+                final(self).world() == old(self).world(),
                 final(self).fhandles() == old(self).fhandles(),
                 final(self).khandles() == old(self).khandles(),
-                r matches Ok(o) ==> (o is Some <==> old(self).heap().kv.contains_key(old(self).khandles()[handle])),
-                r matches Ok(Some(s)) ==> s.ghost() == old(self).heap().kv[old(self).khandles()[handle]],
+                r matches Ok(o) ==> (o is Some <==> old(self).world().heap.kv.contains_key(old(self).khandles()[handle])),
+                r matches Ok(Some(s)) ==> s.ghost() == old(self).world().heap.kv[old(self).khandles()[handle]],
                 r matches Err(e) ==> env_error(e);
 
         fn key_value_entry_close(&mut self, handle: KeyValueEntryHandle) -> (r: Result<(), E>)
             requires old(self).khandles().contains_key(handle)
             ensures
-                same_world(old(self), final(self)),
+                final(self).world() == old(self).world(),
                 final(self).fhandles() == old(self).fhandles(),
                 r is Ok ==> final(self).khandles() == old(self).khandles().remove(handle),
                 r matches Err(e) ==> env_error(e);
@@ -305,7 +302,7 @@ pub mod shim_sysapi_c39 {
         #[verifier::external_body]
         pub fn resource_address<Y: SystemApi<E>, E: SystemApiError>(&self, api: &mut Y) -> (r: Result<ResourceAddress, E>)
             ensures
-                same_world(old(api), final(api)),
+                final(api).world() == old(api).world(),
                 final(api).fhandles() == old(api).fhandles(), final(api).khandles() == old(api).khandles(),
                 r matches Ok(a) ==> a == bucket_resource(*self),
                 r matches Err(e) ==> env_error(e),
@@ -314,7 +311,7 @@ pub mod shim_sysapi_c39 {
         #[verifier::external_body]
         pub fn amount<Y: SystemApi<E>, E: SystemApiError>(&self, api: &mut Y) -> (r: Result<Decimal, E>)
             ensures
-                same_world(old(api), final(api)),
+                final(api).world() == old(api).world(),
                 final(api).fhandles() == old(api).fhandles(), final(api).khandles() == old(api).khandles(),
                 r matches Err(e) ==> env_error(e),
         { unimplemented!() }
@@ -322,7 +319,7 @@ pub mod shim_sysapi_c39 {
         #[verifier::external_body]
         pub fn non_fungible_local_ids<Y: SystemApi<E>, E: SystemApiError>(&self, api: &mut Y) -> (r: Result<IndexSet<NonFungibleLocalId>, E>)
             ensures
-                same_world(old(api), final(api)),
+                final(api).world() == old(api).world(),
                 final(api).fhandles() == old(api).fhandles(), final(api).khandles() == old(api).khandles(),
                 r matches Err(e) ==> env_error(e),
         { unimplemented!() }
@@ -335,11 +332,11 @@ pub mod shim_sysapi_c39 {
         #[verifier::external_body]
         pub fn emit_event<Y: SystemApi<E>, E: SystemApiError, T: EventGhost>(api: &mut Y, event: T) -> (r: Result<(), E>)
             ensures
-                final(api).heap() == old(api).heap(), final(api).auth() == old(api).auth(),
-                final(api).deposited() == old(api).deposited(),
+                final(api).world().heap == old(api).world().heap, final(api).world().auth == old(api).world().auth,
+                final(api).world().deposited == old(api).world().deposited,
                 final(api).fhandles() == old(api).fhandles(), final(api).khandles() == old(api).khandles(),
-                r is Ok ==> final(api).events() == old(api).events().push(event.ghost_event()),
-                r is Err ==> final(api).events() == old(api).events(),
+                r is Ok ==> final(api).world().events == old(api).world().events.push(event.ghost_event()),
+                r is Err ==> final(api).world().events == old(api).world().events,
                 r matches Err(e) ==> env_error(e),
         { unimplemented!() }
         /// Runtime::assert_access_rule -> AuthZoneBlueprint::assert_access_rule: `Ok` only if the rule is
@@ -348,37 +345,40 @@ pub mod shim_sysapi_c39 {
         #[verifier::external_body]
         pub fn assert_access_rule<Y: SystemApi<E>, E: SystemApiError>(rule: AccessRule, api: &mut Y) -> (r: Result<(), E>)
             ensures
-                same_world(old(api), final(api)),
+                final(api).world() == old(api).world(),
                 final(api).fhandles() == old(api).fhandles(), final(api).khandles() == old(api).khandles(),
-                r is Ok ==> rule_holds(old(api).auth(), rule),
-                r matches Err(e) ==> !e.is_account_error() && (e.is_assert_access_rule_failed() ==> !rule_holds(old(api).auth(), rule)),
+                r is Ok ==> rule_holds(old(api).world().auth, rule),
+                r matches Err(e) ==> !e.is_account_error() && (e.is_assert_access_rule_failed() ==> !rule_holds(old(api).world().auth, rule)),
         { unimplemented!() }
     }
 
     // ---- AccountBlueprint::deposit : NOT under contract ----------------------------------------------
-    /// only the vault entry of resource `r` may differ
-    pub open spec fn only_vault_of(a: Heap, b: Heap, r: ResourceAddress) -> bool {
+    /// frame of deposits of the buckets `bs`: the field and every existing key-value entry are untouched
+    /// (nothing is removed or replaced); the only entries that may APPEAR are vault entries of the resources of `bs`
+    pub open spec fn is_vault_key_of(k: KvKey, bs: Seq<Bucket>) -> bool {
+        exists|i: int| 0 <= i < bs.len() && k == (C_VAULTS(), bucket_resource(#[trigger] bs[i]).sbor())
+    }
+    pub open spec fn only_vaults_of(a: Heap, b: Heap, bs: Seq<Bucket>) -> bool {
         &&& b.fields == a.fields
-        &&& b.kv.remove((C_VAULTS(), r.sbor())) =~= a.kv.remove((C_VAULTS(), r.sbor()))
+        &&& forall|k: KvKey| a.kv.contains_key(k) ==> #[trigger] b.kv.contains_key(k) && b.kv[k] == a.kv[k]
+        &&& forall|k: KvKey| #[trigger] b.kv.contains_key(k) && !a.kv.contains_key(k) ==> is_vault_key_of(k, bs)
     }
     impl AccountBlueprint {
         /// ASSUMED (account/blueprint.rs `deposit` = get_vault(create = true) + Vault::put + DepositEvent):
         /// on `Ok` the bucket is in the account's vault of its resource (the vault entry exists afterwards,
-        /// created if absent, never replaced) and is logged in `deposited()`; whatever the outcome nothing but
-        /// that one vault entry of the heap changes, and `deposit` never raises an `AccountError`
+        /// created if absent, never replaced) and is logged in `deposited()`; whatever the outcome nothing in the
+        /// heap changes except that this one vault entry may appear, and `deposit` never raises an `AccountError`
         /// (create = true excludes VaultDoesNotExist) nor AssertAccessRuleFailed.
         #[verifier::external_body]
         pub fn deposit<Y: SystemApi<RuntimeError>>(bucket: Bucket, api: &mut Y) -> (r: Result<(), RuntimeError>)
-            requires typed(old(api).heap())
+            requires typed(old(api).world().heap)
             ensures
-                typed(final(api).heap()),
-                only_vault_of(old(api).heap(), final(api).heap(), bucket_resource(bucket)),
-                old(api).heap().kv.contains_key((C_VAULTS(), bucket_resource(bucket).sbor()))
-                    ==> final(api).heap().kv == old(api).heap().kv,
-                final(api).auth() == old(api).auth(),
-                r is Ok ==> final(api).heap().kv.contains_key((C_VAULTS(), bucket_resource(bucket).sbor())),
-                r is Ok ==> final(api).deposited() == old(api).deposited().push(bucket),
-                r is Ok ==> final(api).events() == old(api).events().push(GhostEvent::Other),
+                typed(final(api).world().heap),
+                only_vaults_of(old(api).world().heap, final(api).world().heap, seq![bucket]),
+                final(api).world().auth == old(api).world().auth,
+                r is Ok ==> final(api).world().heap.kv.contains_key((C_VAULTS(), bucket_resource(bucket).sbor())),
+                r is Ok ==> final(api).world().deposited == old(api).world().deposited.push(bucket),
+                r is Ok ==> final(api).world().events == old(api).world().events.push(GhostEvent::Other),
                 r is Ok ==> final(api).fhandles() == old(api).fhandles() && final(api).khandles() == old(api).khandles(),
                 r matches Err(e) ==> env_error(e),
         { unimplemented!() }
